@@ -87,7 +87,8 @@ def run_tlc(
     keep_dir: bool = False,
     continue_: bool = False,
     dump_dot: str | None = None,
-) -> TLCResult:
+            emit_path: str | None = None,
+            ) -> TLCResult:
     """Run TLC on spec/<module>.tla (or a generated module).
 
     extra_modules: name -> text, written next to copies of the spec dir.
@@ -140,14 +141,28 @@ def run_tlc(
         e.update(env or {})
         t0 = time.time()
         try:
-            p = subprocess.run(
-                cmd, cwd=work, capture_output=True, text=True,
-                timeout=timeout, env=e,
-            )
+            if emit_path is not None:
+                # large emissions: TLC's output goes to a file the caller
+                # iterates over lazily; only TLC's own messages are kept here
+                with open(emit_path, 'w') as fo:
+                    p = subprocess.run(cmd, cwd=work, stdout=fo,
+                                       stderr=subprocess.PIPE, text=True,
+                                       timeout=timeout, env=e)
+                msgs = []
+                with open(emit_path) as fi:
+                    for line in fi:
+                        if not line.startswith('"'):
+                            msgs.append(line)
+                out = ''.join(msgs) + '\n' + (p.stderr or '')
+            else:
+                p = subprocess.run(
+                    cmd, cwd=work, capture_output=True, text=True,
+                    timeout=timeout, env=e,
+                )
+                out = p.stdout + '\n' + p.stderr
         except subprocess.TimeoutExpired as ex:
             raise TLCFailure(
                 f'TLC timed out after {timeout}s on {module}') from ex
-        out = p.stdout + '\n' + p.stderr
         res = parse_tlc(out)
         res.wall_s = time.time() - t0
         if keep_dir:
